@@ -181,6 +181,10 @@ def run_c11(ctx):
     json.dump(res.vecs, open(vp, "w"))
     rep = vlib.run_harness_json(ctx, "exec", ["reuse", "-universe", up, "-vectors", vp], timeout=3000)
     absorb(ctx, rep, "reuse-replay", aspects, devs, ctx.prop)
+    # sessions over abstract types (reflection strategy): operations of one document sharing a fragment on an interface
+    vecs, uni2, _ = enumerate_cases(ctx, ["absops", "dirvars", "inputs", "ops", "args"])
+    rep = replay(ctx, vecs, uni2, "shared-parse", strategies="iface,any,refl")
+    absorb(ctx, rep, "shared-parse", aspects, devs, ctx.prop)
     record_and_judge(ctx, uni, "reuse-record", aspects, devs, ctx.prop, 500 if ctx.tier == "quick" else 4000,
                      universes=10 if ctx.tier == "quick" else 40, extra=["-calls", "4"])
     ctx.exhaustive = True
@@ -197,7 +201,8 @@ COMMON = ["flat", "nest1", "nest2", "nest3", "inline1", "inline2", "spread", "du
 def run_c02(ctx):
     devs = known_devs(FAMILY_PROPS)
     aspects = {"data", "errors", "opchoice", "calls", "precedence"}
-    fams = COMMON + ["mixed"] + (["fault2", "dirs"] if ctx.tier == "thorough" else [])
+    # (family abstract: interface / union typed fields need Go type bindings, so it runs on the reflection strategy in its six binding modes only)
+    fams = COMMON + ["mixed", "abstract"] + (["fault2", "dirs"] if ctx.tier == "thorough" else [])
     vecs, uni, devs = enumerate_cases(ctx, fams)
     rep = replay(ctx, vecs, uni, "replay-3-strategies", strategies="iface,any,refl")
     absorb(ctx, rep, "replay-3-strategies", aspects, devs, ctx.prop)
@@ -216,7 +221,7 @@ def run_c02(ctx):
 def run_c08(ctx):
     devs = known_devs(FAMILY_PROPS)
     aspects = {"data", "calls"}
-    vecs, uni, devs = enumerate_cases(ctx, ["abstract", "defectabs", "inline1", "inline2", "spread"])
+    vecs, uni, devs = enumerate_cases(ctx, ["abstract", "absops", "defectabs", "inline1", "inline2", "spread"])
     rep = replay(ctx, vecs, uni, "replay-refl", strategies="refl")
     absorb(ctx, rep, "replay-refl", aspects, devs, ctx.prop)
     record_and_judge(ctx, uni, "record-refl-abstract", aspects, devs, ctx.prop, 1200 if ctx.tier == "quick" else 12000,
